@@ -147,7 +147,8 @@ class SX:
             return sx_add(sx_add('PosixPath(', SX.b_repr(SymStr(args[0].s.t, args[0].s.segs))), ')')
         if args and getattr(builtins, name, None) is fn:
             a0 = args[0]
-            if isinstance(a0, Sym) or (name in ('repr', 'str', 'sorted', 'list', 'format', 'print') and has_sym(a0)):
+            if isinstance(a0, Sym) or (name in ('repr', 'str', 'sorted', 'list', 'format', 'print') and
+                                       (has_sym(a0) or _has_symset(a0))):
                 return getattr(SX, 'b_' + name)(*args)
         return fn(*args)
 
@@ -276,6 +277,21 @@ class SX:
         c.assume(z3.Not(z3.Contains(v.t, z3.StringVal('"'))))
         c.assumptions_used.add('strings rendered by Python repr() do not contain both quote characters')
         return sx_add(sx_add('"', SymStr(v.t, v.segs)), '"')
+
+    SYMBOLIC_SET_ORDER = [False]
+
+    @staticmethod
+    def mkset(items):
+        """A set comprehension: a real set, unless the harness asked for symbolic iteration order."""
+        if SX.SYMBOLIC_SET_ORDER[0]:
+            out = []
+            for x in items:
+                if not any(SymDict._eq(x, y) for y in out):
+                    out.append(x)
+            c = cur()
+            c.fresh += 1
+            return SymSet(out, f'set{c.fresh}')
+        return set(items)
 
     # ---- f-strings
     @staticmethod
@@ -469,6 +485,16 @@ class SX:
         return res, n
 
 
+def _has_symset(x, depth=3):
+    if isinstance(x, SymSet):
+        return True
+    if depth and type(x) in (list, tuple):
+        return any(_has_symset(i, depth - 1) for i in x)
+    if depth and type(x) is dict:
+        return any(_has_symset(v, depth - 1) for v in x.values())
+    return False
+
+
 class SymPathObj:
     """pathlib.Path(<symbolic string>): only its identity as a Path and its source string are meaningful."""
     import pathlib as _pl
@@ -608,6 +634,12 @@ class Rewrite(ast.NodeTransformer):
         if isinstance(node.ctx, ast.Load) and not isinstance(node.slice, ast.Slice):
             return ast.Call(_sx('getitem'), [node.value, node.slice], [])
         return node
+
+    def visit_SetComp(self, node):
+        self.generic_visit(node)
+        if not self.full:
+            return node
+        return ast.Call(_sx('mkset'), [ast.ListComp(node.elt, node.generators)], [])
 
     def visit_Compare(self, node):
         self.generic_visit(node)
